@@ -818,7 +818,7 @@ class PaneConverter(Converter[PaneBaseT]):
             if field.default is not _MISSING:
                 values[field.name] = field.default
             elif field.default_factory is not None:
-                values[field.name] = field.default_factory
+                values[field.name] = field.default_factory()
             else:
                 raise ParseInterrupt()  # missing field
 
